@@ -131,7 +131,7 @@ do_case(const struct rc_day *p, int c, struct dt_dt_s v, int n, const struct dur
 		++*c_memo;
 		return 0;
 	}
-	daisy = dt_dconv(DT_DAISY, r.d).daisy;
+	daisy = obs_daisy(r);
 	snprintf(got[O_DAISY], sizeof(got[O_DAISY]), "%u", daisy);
 	ok[O_DAISY] = !dt_unk_p(r) && daisy == (unsigned int)trd + 1U;
 	memset(got[O_DFLT], 0, sizeof(got[O_DFLT]));
@@ -196,7 +196,9 @@ static const struct bind_s binds[] = {
 	{C_YMCW, "+1b", NULL}, {C_YMCW, "-5b", NULL},
 	{C_BIZDA, "+1b", NULL}, {C_BIZDA, "-23b", NULL},
 	{C_YWD, "+1b", NULL}, {C_YWD, "-1b", NULL},
+	{C_EPOCH, "+1b", "%F %a"},
 	/* thorough only from here */
+	{C_EPOCH, "-5b", NULL}, {C_YMCW0, "-1b", "%F"}, {C_YWD0, "+1b", "%F"},
 	{C_YMD, "+5b", NULL}, {C_YMD, "-5b", NULL}, {C_YMD, "+4b", "%F %a"}, {C_YMD, "-6b", "%F %a"},
 	{C_YD, "-1b", NULL}, {C_YD, "+5b", NULL}, {C_YD, "+23b", NULL}, {C_YD, "-260b", NULL},
 	{C_YMCW, "-1b", NULL}, {C_YMCW, "+5b", NULL}, {C_YMCW, "+23b", NULL}, {C_YMCW, "-260b", NULL},
@@ -204,7 +206,7 @@ static const struct bind_s binds[] = {
 	{C_BIZDA, "+7b", "%F"}, {C_YWD, "+5b", "%F"},
 	{C_YD, "-400b", NULL}, {C_LDN, "-1280b", NULL}, {C_YMD, "+10000b", NULL}, {C_LDN, "+1b", NULL}, {C_JDN, "-1b", NULL}, {C_MDN, "+5b", NULL}, {C_LDN, "-23b", "%F"},
 };
-#define NBIND_QUICK	13
+#define NBIND_QUICK	14
 #define NBIND		((int)(sizeof(binds) / sizeof(*binds)))
 
 static void
@@ -213,10 +215,10 @@ bind_lib(const struct bind_s *b, const struct durs_s *ds, const struct rc_day *p
 	struct dt_dt_s v;
 
 	memset(got, 0, gsz);
-	if (!cal_text(b->cal, p, text, tsz)) {
+	if (!bind_text(b->cal, p, text, tsz)) {
 		return;
 	}
-	v = dt_strpdt(text, cal_ifmt[b->cal], NULL);
+	v = dt_strpdt(text, bind_ifmt(b->cal), NULL);
 	if (dt_unk_p(v)) {
 		return;
 	}
@@ -233,8 +235,8 @@ bind_cmdline(char *cmd, size_t csz, const struct bind_s *b, const char *tree)
 	if (tree) {
 		snprintf(pre, sizeof(pre), "'%s/src/dadd'", tree);
 	}
-	snprintf(cmd, csz, "%s%s%s%s%s%s %s", pre,
-		 cal_ifmt[b->cal] ? " -i " : "", cal_ifmt[b->cal] ? cal_ifmt[b->cal] : "",
+	snprintf(cmd, csz, "%s%s%s%s%s%s%s -- %s", pre,
+		 bind_ifmt(b->cal) ? " -i '" : "", bind_ifmt(b->cal) ? bind_ifmt(b->cal) : "", bind_ifmt(b->cal) ? "'" : "",
 		 b->ofmt ? " -f '" : "", b->ofmt ? b->ofmt : "", b->ofmt ? "'" : "", b->dur);
 }
 
@@ -263,7 +265,7 @@ do_binding(int k)
 		return;
 	}
 	for (rd = 0; rd < RC_NDAYS; rd++) {
-		if (cal_text(b->cal, rc_get(rd), text, sizeof(text))) {
+		if (bind_text(b->cal, rc_get(rd), text, sizeof(text))) {
 			fprintf(f, "%s\n", text);
 			nin++;
 		}
@@ -283,7 +285,7 @@ do_binding(int k)
 	for (rd = 0; rd < RC_NDAYS; rd++) {
 		const struct rc_day *p = rc_get(rd);
 		size_t l;
-		if (!cal_text(b->cal, p, text, sizeof(text))) {
+		if (!bind_text(b->cal, p, text, sizeof(text))) {
 			continue;
 		}
 		if (!fgets(line, sizeof(line), f)) {
@@ -380,7 +382,8 @@ main(int argc, char *argv[])
 	}
 
 	ex_meta("rule", "every state (day, Saturdays and Sundays included) of the reference successor machine 1601-01-01..4095-12-31 x %d calendars "
-		"(text through the public parser: ymd ywd yd ymcw ldn jdn mdn bizda(Monday-Friday days only); daisy = ymd text converted to the day count) "
+		"(text through the public parser: ymd ywd yd ymcw ldn jdn mdn bizda(Monday-Friday days only); daisy = ymd text converted to the day count; epoch = the day's "
+		"midnight as @SECONDS, same value as -i %%s SECONDS; ymcw-w0 / ywd-w0 = Sunday written 00 (the documented %%w; ywd-w0 read with -i %%G-W%%V-%%w), Sundays only) "
 		"x signed business-day count n != 0 (text '+Nb'/'-Nb' through dt_io_strpdtdur, applied by dt_dtadd as dadd does); oracle: the result is the "
 		"|n|-th Monday-Friday state strictly after (before) the start in the reference machine, observed as dt_dconv(DT_DAISY), as default output in "
 		"the input's calendar (parsed fields) and as %%F; a result whose 16 bytes equal a value already observed to agree for the same (calendar, target) "
